@@ -266,7 +266,21 @@ pub fn parse_prefix<const L: usize>(signed: bool) {
         nd::assume(bytes[i] < 0x80 && bytes[i] != b'_');
         i += 1;
     }
-    let s = unsafe { core::str::from_utf8_unchecked(&bytes) };
+    parse_prefix_bytes::<L>(&bytes, signed);
+}
+
+/// a LITERAL text with one SYMBOLIC byte at `hole` (any ASCII except '_'): the parsers' control flow is
+/// concrete except where it looks at that byte - sign position, prefix letter, first digit, inner digit
+pub fn parse_template<const L: usize>(tmpl: [u8; L], hole: usize, signed: bool) {
+    let b: u8 = nd::any();
+    nd::assume(b < 0x80 && b != b'_');
+    let mut bytes = tmpl;
+    bytes[hole] = b;
+    parse_prefix_bytes::<L>(&bytes, signed);
+}
+
+fn parse_prefix_bytes<const L: usize>(bytes: &[u8; L], signed: bool) {
+    let s = unsafe { core::str::from_utf8_unchecked(&bytes[..]) };
     // reference: strip sign, look at prefix
     let mut st = 0;
     let mut neg = false;
@@ -314,6 +328,33 @@ pub fn parse_prefix<const L: usize>(signed: bool) {
             (Ok(_), None) => panic!("malformed text accepted"),
             (Err(_), Some(_)) => panic!("well-formed text rejected"),
         }
+    }
+}
+
+/// LITERAL texts through the prefixed parsers (no symbolic input; the symbolic versions are probes): the
+/// reference above decides what each must give
+pub fn parse_literals(which: u8) {
+    match which {
+        0 => parse_prefix_bytes::<5>(b"0x+ff", false),
+        1 => parse_prefix_bytes::<5>(b"0x+ff", true),
+        2 => parse_prefix_bytes::<5>(b"0x-ff", true),
+        3 => parse_prefix_bytes::<6>(b"+0b+11", false),
+        4 => parse_prefix_bytes::<6>(b"-0o+17", true),
+        5 => parse_prefix_bytes::<2>(b"0x", false),
+        6 => parse_prefix_bytes::<3>(b"-0b", true),
+        7 => parse_prefix_bytes::<2>(b"+-", true),
+        8 => parse_prefix_bytes::<3>(b"--1", true),
+        9 => parse_prefix_bytes::<3>(b"++1", false),
+        10 => parse_prefix_bytes::<4>(b"-0xF", true),
+        11 => parse_prefix_bytes::<4>(b"0b12", false),
+        12 => parse_prefix_bytes::<4>(b"0o78", false),
+        13 => parse_prefix_bytes::<4>(b"0xfg", false),
+        14 => parse_prefix_bytes::<3>(b"12a", false),
+        15 => parse_prefix_bytes::<0>(b"", false),
+        16 => parse_prefix_bytes::<2>(b"1-", true),
+        17 => parse_prefix_bytes::<2>(b"-5", false),
+        18 => parse_prefix_bytes::<6>(b"0X1234", false),
+        _ => parse_prefix_bytes::<4>(b" 0x1", false),
     }
 }
 
